@@ -337,7 +337,7 @@ def run_mode_A(ctx, case, stale=False):
                     held = job.document if D.model[t] else None  # noqa: F841  (a reference the program may keep)
                     job.sp["r"] = new_sp["r"]
                     D.sps[t] = new_sp
-                    if new_sp["r"] % 2:
+                    if new_sp["r"] % 2 and not stale:  # (Mode S: stale handles may have written to the old path since)
                         # a new job takes the vacated state point: its document starts empty, whatever the former
                         # occupant's document objects still hold
                         ctx.monitor("vacated_id_document_empty")
